@@ -824,23 +824,41 @@ OTHER_TARGETS: Dict[str, Callable[..., Dict[str, Any]]] = {
 }
 
 
-def s_hierarchy() -> Dict[str, Dict[str, Any]]:
+EXT_OWNERS = ["LH", "PA"]  # SNREF-owning ancestors that cannot have PARENT-REFs of the usual kind: ECU-SHARED-DATA, PROTOCOL
+
+
+def s_hierarchy(extended: bool = False) -> Dict[str, Dict[str, Any]]:
+    """extended: additionally LH (ECU-SHARED-DATA, container CA, second parent of LP) and PA (PROTOCOL, container CB,
+    parent of LG), i.e. LR/LS <- LP <- {LG <- PA, LH}"""
     LG = new_layer("LG", "FUNCTIONAL-GROUP")
     LP = new_layer("LP", "BASE-VARIANT")
     LP["parents"] = [{"ref": {"ref": "LID.LG", "doc": ("CB", "CONTAINER")}, "ptype": "FUNCTIONAL-GROUP"}]
+    ext: Dict[str, Dict[str, Any]] = {}
+    if extended:
+        LH = new_layer("LH", "ECU-SHARED-DATA")
+        PA = new_layer("PA", "PROTOCOL")
+        PA["comparam_spec"] = copy.deepcopy(SPEC_REF)
+        LP["parents"].append({"ref": {"ref": "LID.LH"}, "ptype": "ECU-SHARED-DATA"})
+        LG["parents"] = [{"ref": {"ref": "LID.PA"}, "ptype": "PROTOCOL"}]
+        ext = {"LH": LH, "PA": PA}
     LR = new_layer("LR", "ECU-VARIANT")
     LR["parents"] = [{"ref": {"ref": "LID.LP"}, "ptype": "BASE-VARIANT"}]
     LS = new_layer("LS", "ECU-VARIANT")
     LS["parents"] = [{"ref": {"ref": "LID.LP", "doc": ("LP", "LAYER")}, "ptype": "BASE-VARIANT"}]
     LO = new_layer("LO", "BASE-VARIANT")
     LE = new_layer("LE", "ECU-SHARED-DATA")
-    return {"LG": LG, "LP": LP, "LR": LR, "LS": LS, "LO": LO, "LE": LE}
+    return dict({"LG": LG, "LP": LP, "LR": LR, "LS": LS, "LO": LO, "LE": LE}, **ext)
 
 
 def s_assemble(L: Dict[str, Dict[str, Any]]) -> Dict[str, Any]:
-    return {"containers": [{"sn": "CA", "id": "CID.CA", "m": "container:CA", "layers": [L["LP"], L["LR"], L["LS"]]},
-                           {"sn": "CB", "id": "CID.CB", "m": "container:CB", "layers": [L["LG"], L["LO"]]},
-                           {"sn": "CS", "id": "CID.CS", "m": "container:CS", "layers": [L["LE"]]}]}
+    w: Dict[str, Any] = {"containers": [{"sn": "CA", "id": "CID.CA", "m": "container:CA", "layers": [L["LP"], L["LR"], L["LS"]]},
+                                        {"sn": "CB", "id": "CID.CB", "m": "container:CB", "layers": [L["LG"], L["LO"]]},
+                                        {"sn": "CS", "id": "CID.CS", "m": "container:CS", "layers": [L["LE"]]}]}
+    if "LH" in L:
+        w["containers"][0]["layers"].append(L["LH"])
+        w["containers"][1]["layers"].append(L["PA"])
+        w["specs"] = [copy.deepcopy(SPEC0)]
+    return w
 
 
 def s_world(sc: Dict[str, Any]) -> Tuple[Dict[str, Any], Dict[str, Any], Callable[[Any], Any]]:
@@ -848,8 +866,8 @@ def s_world(sc: Dict[str, Any]) -> Tuple[Dict[str, Any], Dict[str, Any], Callabl
             "as": other object kind (optional: N is defined as that kind instead), "dup": bool}"""
     base, snkind = S_KINDS[sc["kind"]]
     kind = KIND[base]
-    L = s_hierarchy()
     owner = sc["owner"]
+    L = s_hierarchy(extended=owner in EXT_OWNERS)
     tgt = OTHER_TARGETS[sc["as"]] if sc.get("as") else kind.target
     for loc in sc["defs"]:
         add(L[loc], tgt(loc, f"{loc}.N", "N@" + loc, "N"))
@@ -859,8 +877,9 @@ def s_world(sc: Dict[str, Any]) -> Tuple[Dict[str, Any], Dict[str, Any], Callabl
         for key, objs in d.items():
             L[owner].setdefault(key, []).extend(o for o in objs if o.get("sn") == "N")
     for l in sc.get("ni", []):
-        L[l]["parents"][0]["ni"] = {NI_OF.get(snkind, "dops") if not sc.get("as") else
-                                    ("tables" if sc["as"] == "table" else "comms" if sc["as"] == "service" else "dops"): ["N"]}
+        for pr in L[l]["parents"]:
+            pr["ni"] = {NI_OF.get(snkind, "dops") if not sc.get("as") else
+                        ("tables" if sc["as"] == "table" else "comms" if sc["as"] == "service" else "dops"): ["N"]}
     if sc.get("import"):
         L[owner]["imports"] = [copy.deepcopy(IMPORT_REF)]
     add(L[owner], kind.source(owner, {"snref": "N"}))
@@ -996,7 +1015,16 @@ def s_scenarios(quick: bool) -> List[Dict[str, Any]]:
                     out.append({"fam": "S", "kind": kind, "owner": owner, "defs": defs, "ni": [], "import": False, "as": other})
             for defs in ([owner], [owner, parent]):
                 out.append({"fam": "S", "kind": kind, "owner": owner, "defs": defs, "ni": [], "import": False, "dup": True})
-    # a DOP and an object of another DOP-BASE kind with the same name, both in the owner: handled via "as" + a second definition
+    # SNREFs owned by an ECU-SHARED-DATA (LH) / PROTOCOL (PA) ancestor: retargeting to a descendant must rebind them too
+    ext_kinds = (["param/DOP-SNREF", "table-key/TABLE-SNREF", "mux-case/STRUCTURE-SNREF", "static-field/BASIC-STRUCTURE-SNREF",
+                  "table-diag-comm-connector/DIAG-COMM-SNREF"] if quick else list(S_KINDS))
+    for kind in ext_kinds:
+        for owner in EXT_OWNERS:
+            for defs in subsets_of([owner, "LR", "LP", "LG", "LS"]):
+                for ni in ([], ["LR"], ["LP"], ["LG"]):
+                    if quick and ni == ["LG"]:
+                        continue
+                    out.append({"fam": "S", "kind": kind, "owner": owner, "defs": defs, "ni": ni, "import": False})
     for owner in ("LR", "LP"):
         for where in ("request", "response", "structure"):
             for sit in ("unique", "missing", "ambiguous", "wrong-type", "only-in-other-list", "key-after-struct", "same-name-in-other-list"):
@@ -1024,6 +1052,11 @@ def rel_class(owner: str, marker: Any) -> str:
     if "@" not in m:
         return "object"
     loc = m.rsplit("@", 1)[1]
+    if owner in EXT_OWNERS:
+        if loc == owner:
+            return "own-layer"
+        heirs = ["LP", "LR", "LS"] + (["LG"] if owner == "PA" else [])
+        return "descendant" if loc in heirs else "other:" + loc
     order = ["LR", "LP", "LG"] if owner == "LR" else ["LP", "LG"]
     if loc == owner:
         return "own-layer"
